@@ -1098,6 +1098,15 @@ def _m_from_be_bytes(eng, st, callee, args, ev):
     return _m_from_le_bytes(eng, st, callee, args, ev, be=True)
 
 
+def _m_leading_zeros(eng, st, callee, args, ev):
+    ty = _int_self(callee)
+    a = args[0]
+    if ty is None or not is_c(a):
+        return NotImplemented
+    bits = INT_BITS[ty]
+    return C(bits - a[1].bit_length(), "u32")
+
+
 def _m_to_bits(eng, st, callee, args, ev):
     return ("to_bits", args[0])
 
@@ -1266,6 +1275,7 @@ for _t in ("u8", "i8", "u16", "i16", "u32", "i32", "u64", "i64", "u128", "i128",
     MODELS["core::num::<impl %s>::to_be_bytes" % _t] = _m_to_be_bytes
     MODELS["core::num::<impl %s>::from_le_bytes" % _t] = _m_from_le_bytes
     MODELS["core::num::<impl %s>::from_be_bytes" % _t] = _m_from_be_bytes
+    MODELS["core::num::<impl %s>::leading_zeros" % _t] = _m_leading_zeros
 
 
 # ---- pretty printing -------------------------------------------------------------------------
